@@ -112,6 +112,7 @@ func (c *Client) Ping(quit <-chan struct{}) error {
 
 	// submit transaction
 	if err := c.write(quit, packetPINGREQ); err != nil {
+		verifYield("ping.fail")
 		select {
 		case <-c.pingAck: // unlock
 		default: // picked up by unrelated pong
@@ -126,6 +127,7 @@ func (c *Client) Ping(quit <-chan struct{}) error {
 	case err := <-done:
 		return err
 	case <-quit:
+		verifYield("ping.quit")
 		select {
 		case <-c.pingAck: // unlock
 			return fmt.Errorf("%w; PING not confirmed", ErrAbandoned)
@@ -324,6 +326,7 @@ func (c *Client) subscribeLevel(quit <-chan struct{}, topicFilters []string, lev
 
 	// network submission
 	if err = c.write(quit, packet); err != nil {
+		verifYield("sub.fail")
 		c.unorderedTxs.endTx(packetID) // releases slot
 		if errors.Is(err, ErrSubmit) {
 			return fmt.Errorf("%w; SUBSCRIBE in limbo", err)
@@ -335,6 +338,7 @@ func (c *Client) subscribeLevel(quit <-chan struct{}, topicFilters []string, lev
 	case err := <-done:
 		return err
 	case <-quit:
+		verifYield("sub.quit")
 		c.unorderedTxs.endTx(packetID) // releases slot
 		return fmt.Errorf("%w; SUBSCRIBE not confirmed", ErrAbandoned)
 	}
@@ -437,6 +441,7 @@ func (c *Client) Unsubscribe(quit <-chan struct{}, topicFilters ...string) error
 
 	// network submission
 	if err = c.write(quit, packet); err != nil {
+		verifYield("unsub.fail")
 		c.unorderedTxs.endTx(packetID) // releases slot
 		if errors.Is(err, ErrSubmit) {
 			return fmt.Errorf("%w; UNSUBSCRIBE in limbo", err)
@@ -448,6 +453,7 @@ func (c *Client) Unsubscribe(quit <-chan struct{}, topicFilters ...string) error
 	case err := <-done:
 		return err
 	case <-quit:
+		verifYield("unsub.quit")
 		c.unorderedTxs.endTx(packetID) // releases slot
 		return fmt.Errorf("%w; UNSUBSCRIBE not confirmed", ErrAbandoned)
 	}
@@ -586,6 +592,7 @@ func (c *Client) submitPersisted(packet net.Buffers, out outbound) (exchange <-c
 		out.seqSem <- seq // unlock with updated
 	}()
 
+	verifYield("submit.locked")
 	hasBacklog := seq.submitN < seq.acceptN
 
 	// persist
@@ -594,6 +601,7 @@ func (c *Client) submitPersisted(packet net.Buffers, out outbound) (exchange <-c
 		return nil, err
 	}
 	seq.acceptN++
+	verifYield("submit.enqueued")
 
 	// submit
 	if hasBacklog {
